@@ -202,3 +202,44 @@ Qed.
 (* a \u escape that names a surrogate is rejected (it used to panic) *)
 Example surrogate_escape_rejected : text_token [34; 92; 117; 100; 56; 48; 48; 34] = (TokBadEscape, []).
 Proof. vm_compute. reflexivity. Qed.
+
+(* ---- C15: spellings of text keys ---- *)
+Lemma str_eqb_refl s : str_eqb s s = true.
+Proof. induction s as [|c t IH]; simpl; [reflexivity|]. now rewrite N.eqb_refl. Qed.
+
+Lemma str_eqb_eq a b : str_eqb a b = true <-> a = b.
+Proof.
+  revert b. induction a as [|x a IH]; intros [|y b]; simpl; split; intros H; try discriminate; auto.
+  - apply andb_prop in H as (H1 & H2). apply N.eqb_eq in H1. apply IH in H2. now subst.
+  - inversion H; subst. rewrite N.eqb_refl. now apply IH.
+Qed.
+
+Lemma skip_blanks_printed t : skip_blanks (write_string_literal t) = write_string_literal t.
+Proof.
+  unfold write_string_literal. destruct (is_identifier t) eqn:EI; [|reflexivity].
+  unfold is_identifier in EI. destruct (str_eqb t s_true || str_eqb t s_false); [discriminate|].
+  destruct t as [|c r]; [discriminate|]. apply andb_prop in EI as (Hs & _). simpl.
+  destruct (N.eqb_spec c 32) as [->|]; [vm_compute in Hs; discriminate|].
+  destruct (N.eqb_spec c 9) as [->|]; [vm_compute in Hs; discriminate|]. reflexivity.
+Qed.
+
+Lemma key_token_printed t : key_token (write_string_literal t) = KText t.
+Proof.
+  unfold key_token. rewrite skip_blanks_printed.
+  pose proof (text_roundtrip t [] I) as H. rewrite app_nil_r in H. rewrite H. reflexivity.
+Qed.
+
+Lemma key_token_quoted t : key_token (quoted t) = KText t.
+Proof.
+  unfold key_token. assert (skip_blanks (quoted t) = quoted t) as -> by reflexivity.
+  pose proof (quoted_reads_back t []) as H. rewrite app_nil_r in H. rewrite H. reflexivity.
+Qed.
+
+(* the printed form of two texts compares equal exactly when the texts are equal: keys that differ only
+   in spelling are one key, distinct keys are never merged *)
+Theorem printed_texts_compare_as_texts t1 t2 :
+  text_key_eq (write_string_literal t1) (write_string_literal t2) = str_eqb t1 t2.
+Proof. unfold text_key_eq. now rewrite !key_token_printed. Qed.
+
+Theorem quoted_and_printed_agree t : text_key_eq (quoted t) (write_string_literal t) = true.
+Proof. unfold text_key_eq. rewrite key_token_quoted, key_token_printed. apply str_eqb_refl. Qed.
